@@ -51,7 +51,7 @@ impl Check for C12 {
         "C12"
     }
     fn rule(&self) -> &'static str {
-        "case = one configuration (mode graph with lookaheads), 2-3 inputs, up to 2 scanners obtained with build() (same cache entry) and up to 4 live iterators; an interleaved history of create(scanner, input) | next(i) | peek_n(i, n) | set_mode(i, m) | set_offset(i, o) | drop(i) | Scanner::set_mode(s, m); oracle = for each iterator its own sub-history is replayed alone on a scanner from build_uncached() and every observation (tokens, peek results, current_mode after each call) must be identical, and a second isolated replay without the peeks must give the same non-peek observations; non-trivial = two iterators alive at the same time with interleaved next calls on different inputs or in different modes"
+        "case = one configuration (mode graph with lookaheads), 2-3 inputs, up to 2 scanners obtained with build() (same cache entry) and up to 6 (occasionally 40) live iterators; an interleaved history of create(scanner, input) | next(i) | peek_n(i, n) | set_mode(i, m) | set_offset(i, o) | drop(i) | Scanner::set_mode(s, m); oracle = for each iterator its own sub-history is replayed alone on a scanner from build_uncached() and every observation (tokens, peek results, current_mode after each call) must be identical, and a second isolated replay without the peeks must give the same non-peek observations; non-trivial = two iterators alive at the same time with interleaved next calls on different inputs or in different modes"
     }
     fn cases(&self, thorough: bool) -> usize {
         if thorough {
@@ -70,10 +70,12 @@ impl Check for C12 {
         let ninp = case.inputs.len();
         let nops = 6 + d.below(if thorough { 50 } else { 30 });
         let mut created = 0usize;
+        let max_iters = if d.chance(8) { 40 } else { 6 };
+        let nops = if max_iters > 6 { nops + 60 } else { nops };
         for _ in 0..nops {
             let w_on = if created > 0 { 14 } else { 0 };
             match d.weighted(&[3, w_on, 1]) {
-                0 if created < 6 => {
+                0 if created < max_iters => {
                     case.ops.push(Op::Create {
                         s: d.below(2),
                         inp: d.below(ninp),
